@@ -38,6 +38,17 @@ let run_case op t =
       let show (e, p) = "ok " ^ str_of_z e ^ " " ^ str_of_z p in
       let m = match tfp_scan v with Ok r -> show r | Contract -> "contract" | UB _ -> "ub" | OutOfFuel -> "outoffuel" in
       (m, show (tfp_spec (vchars v)))
+  | "throwing" ->
+      (* exception path of copy construction / copy assignment (element copy throws after <countdown> copies): the target
+         holds exactly size() live objects afterwards and nothing leaks -- the statement of C03's exception-path model
+         (coq/C03/ModelMem.v, C03_uninitialized_exception_safe); no model computation of C02's own *)
+      let _ = next_str t in
+      let _ = next_int t in
+      let _ = next_int t in
+      let se = next_int t in
+      let cd = next_int t in
+      let l = "ok " ^ b2s (cd >= 0 && cd < se) ^ " 1 1 1" in
+      (l, l)
   | "strtod" ->
       (* strtod <n c1..cn> <off>: etl::strtod on the C string starting at buf + off of an exact-size buffer that holds a null *)
       let buf = next_zlist t in
